@@ -124,7 +124,7 @@ def idle_violations(spec, obs, sc_idx=0):
                 if q == me or x <= EPS:
                     continue
                 qo = tm.get(q)
-                if qo is None or qo.start is None or qo.end is None:
+                if qo is None or qo.start is None:  # (a task that could not be completed still has its noted start)
                     continue
                 q_backward = rules.explicit_backward(spec, q) or q in back_closure
                 if not q_backward and a + timedelta(seconds=1) < qo.start < b:
